@@ -5,6 +5,7 @@ import (
 	"flag"
 	"fmt"
 	"os"
+	"runtime"
 )
 
 func main() {
@@ -65,4 +66,16 @@ func devRun(args []string) {
 	fmt.Printf("TOTAL execs=%d steps=%d committed=%d faults=%v probes=%v failkinds=%v states=%d violations=%d\n", total.Execs, total.Steps, total.Committed, total.FaultsFired, total.Probes, total.FailKinds, len(total.ModelStates), nviol)
 }
 
-func dispatch(cmd string, args []string) bool { return false }
+func dispatch(cmd string, args []string) bool {
+	switch cmd {
+	case "check":
+		os.Exit(cmdCheck(args))
+	case "worker":
+		os.Exit(cmdWorker(args))
+	case "replay":
+		os.Exit(cmdReplay(args))
+	}
+	return false
+}
+
+func numCPU() int { return runtime.NumCPU() }
